@@ -19,6 +19,8 @@ FAMILIES = [
     ("annotated_super", "style='annotated', supertypes=True"), ("codec_super", "style='codec', supertypes=True"),
     ("config_tagger", "style='config', tagger=True"), ("codec_tagger", "style='codec', tagger=True"),
     ("codec_plain", "style='codec', mixin=False"),
+    ("config_json", "style='config', fmt='json'"), ("annotated_json", "style='annotated', fmt='json'"),
+    ("annotated_msgpack", "style='annotated', fmt='msgpack'"), ("annotated_plain", "style='annotated', mixin=False"),
 ]
 
 
